@@ -258,6 +258,156 @@ with wf_type (t : ctype) : bool :=
   | CType t (Some (bl, anns)) => wf_ty t && wf_blank bl && wf_anns anns
   end.
 
+(* ---------- integer constants:  '-'*  [0x] digits  ---------- *)
+(* the value is spelled out here independently of the parser's conversion: plain positional notation *)
+Definition digits_value (radix : Z) (ds : list byte) : Z := fold_left (fun acc d => acc * radix + digit_val d) ds 0.
+Record cint := mkCInt { ci_minus : nat; ci_hex : bool; ci_digits : list byte }.
+Fixpoint minus_run (n : nat) (k : list byte) : list byte := match n with O => k | S n' => x2d :: minus_run n' k end.
+Definition pr_int (i : cint) (k : list byte) : list byte :=
+  minus_run (ci_minus i) ((if ci_hex i then txt "0x" else []) ++ ci_digits i ++ k).
+Definition int_abs (i : cint) : Z := digits_value (if ci_hex i then 16 else 10) (ci_digits i).
+Definition erase_int (i : cint) : Z := if Nat.odd (ci_minus i) then - int_abs i else int_abs i.
+(* digits of the right radix, at least one, magnitude within i64 *)
+Definition wf_int (i : cint) : bool :=
+  negb (is_nil (ci_digits i)) && forallb (if ci_hex i then is_hexdigit else is_digit) (ci_digits i) &&
+  (int_abs i <=? 9223372036854775807).
+
+(* ---------- double constants (the parser keeps the text):  [-] [+] body,  body = d+ . d* [exp] | . d+ [exp] | d+ exp,
+   exp = e|E followed by an integer constant ---------- *)
+Record cexp := mkCExp { ce_upper : bool; ce_int : cint }.
+Inductive cdbody :=
+| DBodyA (ip fp : list byte) (ex : option cexp)
+| DBodyB (fp : list byte) (ex : option cexp)
+| DBodyC (ip : list byte) (ex : cexp).
+Record cdbl := mkCDbl { cd_minus : bool; cd_plus : bool; cd_body : cdbody }.
+Definition pr_exp (e : cexp) (k : list byte) : list byte := (if ce_upper e then x45 else x65) :: pr_int (ce_int e) k.
+Definition pr_oexp (e : option cexp) (k : list byte) : list byte := match e with Some e => pr_exp e k | None => k end.
+Definition pr_dbody (b : cdbody) (k : list byte) : list byte :=
+  match b with
+  | DBodyA ip fp ex => ip ++ x2e :: fp ++ pr_oexp ex k
+  | DBodyB fp ex => x2e :: fp ++ pr_oexp ex k
+  | DBodyC ip ex => ip ++ pr_exp ex k
+  end.
+Definition pr_dbl (d : cdbl) (k : list byte) : list byte :=
+  (if cd_minus d then [x2d] else []) ++ (if cd_plus d then [x2b] else []) ++ pr_dbody (cd_body d) k.
+Definition erase_dbl (d : cdbl) : str := pr_dbl d [].
+Definition is_digits (ds : list byte) : bool := forallb is_digit ds.
+Definition wf_exp (e : cexp) : bool := wf_int (ce_int e).
+Definition wf_oexp (e : option cexp) : bool := match e with Some e => wf_exp e | None => true end.
+Definition wf_dbody (b : cdbody) : bool :=
+  match b with
+  | DBodyA ip fp ex => negb (is_nil ip) && is_digits ip && is_digits fp && wf_oexp ex
+  | DBodyB fp ex => negb (is_nil fp) && is_digits fp && wf_oexp ex
+  | DBodyC ip ex => negb (is_nil ip) && is_digits ip && wf_exp ex
+  end.
+Definition wf_dbl (d : cdbl) : bool := wf_dbody (cd_body d).
+
+(* ---------- constant values ---------- *)
+Inductive cconst :=
+| CCLit (l : clit)
+| CCBool (b : bool)
+| CCPath (p : cpath)
+| CCDbl (d : cdbl)
+| CCInt (i : cint)
+| CCList (b0 : blank) (els : clist)            (* [ b0 (v b sep)* ] *)
+| CCMap (b0 : blank) (els : cmapl)             (* { b0 (k b1 : b2 v b3 sep)* } *)
+with clist := CLNil | CLCons (v : cconst) (b : blank) (s : csep) (rest : clist)
+with cmapl := CMNil | CMCons (k : cconst) (b1 b2 : blank) (v : cconst) (b3 : blank) (s : csep) (rest : cmapl).
+
+Fixpoint pr_const (v : cconst) (k : list byte) : list byte :=
+  match v with
+  | CCLit l => pr_lit l k
+  | CCBool b => (if b then txt "true" else txt "false") ++ k
+  | CCPath p => pr_path p k
+  | CCDbl d => pr_dbl d k
+  | CCInt i => pr_int i k
+  | CCList b0 els => txt "[" ++ pr_blank b0 (pr_clist els (txt "]" ++ k))
+  | CCMap b0 els => txt "{" ++ pr_blank b0 (pr_cmapl els (txt "}" ++ k))
+  end
+with pr_clist (l : clist) (k : list byte) : list byte :=
+  match l with
+  | CLNil => k
+  | CLCons v b s rest => pr_const v (pr_blank b (pr_sep s (pr_clist rest k)))
+  end
+with pr_cmapl (l : cmapl) (k : list byte) : list byte :=
+  match l with
+  | CMNil => k
+  | CMCons key b1 b2 v b3 s rest =>
+    pr_const key (pr_blank b1 (txt ":" ++ pr_blank b2 (pr_const v (pr_blank b3 (pr_sep s (pr_cmapl rest k))))))
+  end.
+
+Fixpoint erase_const (v : cconst) : ConstValue :=
+  match v with
+  | CCLit l => CString (erase_lit l)
+  | CCBool b => CBool b
+  | CCPath p => CPath (erase_path p)
+  | CCDbl d => CDouble (erase_dbl d)
+  | CCInt i => CInt (erase_int i)
+  | CCList _ els => CList (erase_clist els)
+  | CCMap _ els => CMap (erase_cmapl els)
+  end
+with erase_clist (l : clist) : list ConstValue :=
+  match l with CLNil => [] | CLCons v _ _ rest => erase_const v :: erase_clist rest end
+with erase_cmapl (l : cmapl) : list (ConstValue * ConstValue) :=
+  match l with CMNil => [] | CMCons key _ _ v _ _ rest => (erase_const key, erase_const v) :: erase_cmapl rest end.
+
+(* does the text of the value end with a word character (a word or a number)? *)
+Definition const_ends_word (v : cconst) : bool :=
+  match v with CCBool _ | CCPath _ | CCDbl _ | CCInt _ => true | _ => false end.
+(* does the text of the value begin with a word character or a '.' (so that it would continue a preceding word or
+   number)?  Signs, quotes and brackets do not. *)
+Definition const_starts_word (v : cconst) : bool :=
+  match v with
+  | CCBool _ | CCPath _ => true
+  | CCDbl d => negb (cd_minus d) && negb (cd_plus d)
+  | CCInt i => match ci_minus i with O => true | S _ => false end
+  | _ => false
+  end.
+Definition const_starts_dot (v : cconst) : bool :=
+  match v with
+  | CCDbl d => negb (cd_minus d) && negb (cd_plus d) && match cd_body d with DBodyB _ _ => true | _ => false end
+  | _ => false
+  end.
+Definition clist_starts_word (l : clist) : bool := match l with CLNil => false | CLCons v _ _ _ => const_starts_word v end.
+Definition clist_starts_dot (l : clist) : bool := match l with CLNil => false | CLCons v _ _ _ => const_starts_dot v end.
+Definition cmapl_starts_word (l : cmapl) : bool := match l with CMNil => false | CMCons k _ _ _ _ _ _ => const_starts_word k end.
+Definition cmapl_starts_dot (l : cmapl) : bool := match l with CMNil => false | CMCons k _ _ _ _ _ _ => const_starts_dot k end.
+
+(* what the grammar demands between a value and the next one when no separator is written: a value that ends with a
+   word or a number is set off by a blank from a following word, number or '.', and a path is not followed, even
+   after a blank, by a '.' (which would continue the path) *)
+Definition const_is_path (v : cconst) : bool := match v with CCPath _ => true | _ => false end.
+Definition glue_ok (v : cconst) (b : blank) (s : csep) (next_word next_dot : bool) : bool :=
+  match s with
+  | SepSome _ _ => true
+  | SepNone =>
+    negb (const_ends_word v && is_nil b && (next_word || next_dot)) && negb (const_is_path v && next_dot)
+  end.
+
+Fixpoint wf_const (v : cconst) : bool :=
+  match v with
+  | CCLit l => wf_lit l
+  | CCBool _ => true
+  | CCPath p => wf_path p && negb (bytes_in (cp_head p) [txt "true"; txt "false"])
+  | CCDbl d => wf_dbl d
+  | CCInt i => wf_int i
+  | CCList b0 els => wf_blank b0 && wf_clist els
+  | CCMap b0 els => wf_blank b0 && wf_cmapl els
+  end
+with wf_clist (l : clist) : bool :=
+  match l with
+  | CLNil => true
+  | CLCons v b s rest =>
+    wf_const v && wf_blank b && wf_sep s && glue_ok v b s (clist_starts_word rest) (clist_starts_dot rest) && wf_clist rest
+  end
+with wf_cmapl (l : cmapl) : bool :=
+  match l with
+  | CMNil => true
+  | CMCons key b1 b2 v b3 s rest =>
+    wf_const key && wf_blank b1 && wf_blank b2 && wf_const v && wf_blank b3 && wf_sep s &&
+    glue_ok v b3 s (cmapl_starts_word rest) (cmapl_starts_dot rest) && wf_cmapl rest
+  end.
+
 (* ---------- optional pieces shared by the declarations ---------- *)
 Definition pr_oanns (a : option (list cann)) (k : list byte) : list byte :=
   match a with Some l => pr_anns l k | None => k end.
